@@ -111,6 +111,7 @@ class Run(object):
         self.exc = None
         self.oplog = []
         self.record_full = False
+        self.mid_poll_hook = None
         self.spec = native_specs.WorkflowSpec(copy.deepcopy(wf))
         self.c = conducting.WorkflowConductor(self.spec, inputs=copy.deepcopy(self.inputs))
         if precrash:
@@ -175,9 +176,10 @@ class Run(object):
         return ev
 
     # ------------------------------------------------------------------ provider operations
-    def request(self, status):
+    def request(self, status, record=True):
         self.step += 1
-        self.script.append(["req", status])
+        if record:
+            self.script.append(["req", status])
         ev = self._call("req", [status], self.c.request_workflow_status, status)
         ok = ev["exc"] is None
         if ok:
@@ -205,10 +207,12 @@ class Run(object):
             return rec["retry"].get("tally", 0)
         return 0
 
-    def poll(self):
-        """get_next_tasks + acknowledge every offered action. returns number of offered actions"""
+    def poll(self, mid=None):
+        """get_next_tasks + acknowledge every offered action. returns number of offered actions.
+        mid: a status request that lands between the answer and the acknowledgements (replay)"""
         self.step += 1
-        self.script.append(["poll"])
+        op = ["poll"]
+        self.script.append(op)
         total = 0
         for _round in range(64):
             ev = self._call("poll", [], self.c.get_next_tasks)
@@ -226,6 +230,12 @@ class Run(object):
                 self.trace.append(("poll", [], ev["post"]["status"]))
                 break
             again = False
+            if len(op) == 1:
+                # e.g. a pause request racing with the provider starting what it was offered
+                st_req = mid if mid is not None else (self.mid_poll_hook(self) if self.mid_poll_hook is not None else None)
+                if st_req:
+                    op.append(st_req)
+                    self.request(st_req, record=False)
             for t in nt:
                 tid, route = t["id"], t["route"]
                 ctx = {k: v for k, v in (t.get("ctx") or {}).items() if not k.startswith("__")}
@@ -387,7 +397,7 @@ class Run(object):
         if k == "req":
             return self.request(op[1])
         if k == "poll":
-            return self.poll()
+            return self.poll(mid=op[1] if len(op) > 1 else None)
         if k == "done":
             i = self.find_inflight(op[1], op[2], op[3])
             if i is None:
